@@ -43,6 +43,10 @@ func VerifC11_IsBatchReady() {
 			if verifrt.Bool("pod.hasLabel") {
 				pod.Labels[v1beta1.RolloutIDLabel] = verifrt.String("pod.rolloutID")
 			}
+			// a batch-id alone (left by an earlier release, or written by anybody) says nothing about this release
+			if verifrt.Bool("pod.hasBatchID") {
+				pod.Labels[v1beta1.RolloutBatchIDLabel] = "1"
+			}
 			if verifrt.Bool("pod.terminating") {
 				now := metav1.Now()
 				pod.DeletionTimestamp = &now
@@ -75,3 +79,8 @@ func VerifC11_IsBatchReady() {
 // labels against the planned size the label patcher works to, not against a larger number nobody will ever label
 // (the same obligations as VerifC11_IsBatchReady, C07.readiness.noSpuriousWait).
 func VerifC07_ReadinessNeverWaitsForMoreThanPlanned() { VerifC11_IsBatchReady() }
+
+// C12: the batch labels are read the way they are written — a pod counts for the batch being verified only if it is
+// live and carries this release's rollout-id; a batch-id left by an earlier release does not make it one of this
+// release's pods (C11.ready.enoughLabelledPods of the same relation).
+func VerifC12_ReadinessCountsOnlyThisReleasesLabels() { VerifC11_IsBatchReady() }
